@@ -27,3 +27,6 @@ func (w *World) LogHash() string {
 
 // ResetCallIndex exists only because run.go is shared verbatim with simL.
 func ResetCallIndex() {}
+
+// SetupRefused exists only because run.go is shared verbatim with simL.
+type SetupRefused struct{ Msg string }
